@@ -573,7 +573,19 @@ static void op_lslice(void)
 	}
 	put_pixels(line, y, (unsigned) q.raw_samples, &fi, bpp, (uint32_t) seed);
 	if (d.cri_bytes < 0 || d.cri_bytes > 200000) {
-		printf("ok wrapped need=inf line=%zu wr=0 ret=0\n", linelen);
+		/* wrapped search limit (the loop counter is unsigned: ~2^32 iterations).  Executed, not predicted: on the
+		   guard mapping the first read beyond the bytes supplied faults and is counted (measure_need), so `need`
+		   is what the real code needs for this very line - `inf` unless the CRI happens to be found.  With the
+		   `asan` flag the call is repeated on the exact-size heap line (replay form of the over-read). */
+		need = measure_need(runL, &d, line, linelen, out, fi.g16 ? 2 : 1);
+		if (force_asan) {
+			uint8_t *exact = (uint8_t *) malloc(linelen ? linelen : 1);
+			memcpy(exact, line, linelen);
+			runL(&d, exact, out);
+			free(exact);
+		}
+		printf("ok wrapped need="); print_need(need);
+		printf(" line=%zu wr=0 ret=0\n", linelen);
 		free(y); free(line); return;
 	}
 	padded = (uint8_t *) calloc(1, linelen + PAD_BYTES + 4096);
